@@ -18,7 +18,7 @@ from ..runner import empty_result
 PID = "C07"
 LEVEL = "model_checking"
 WITNESSES = ["pre_season_days", "season_jump", "off_season_days", "harvest_by_maturity", "harvest_by_death", "harvest_by_latest_date",
-             "end_cuts_season", "new_year_spanning_season", "multi_season", "thermal_maturity", "chunked_stepping", "start_after_planting", "natural_death"]
+             "end_cuts_season", "new_year_spanning_season", "multi_season", "thermal_maturity", "chunked_stepping", "start_after_planting", "natural_death", "converted_thermal_maturity_checked"]
 NONTRIVIAL = ["season_jump", "off_season_days", "harvest_by_death", "harvest_by_latest_date", "end_cuts_season", "new_year_spanning_season",
               "thermal_maturity", "chunked_stepping", "start_after_planting"]
 
@@ -144,6 +144,16 @@ def scenarios(tier, seed=0):
         sc = mk("10/15", 0, D(2001, 10, 12), D(2003, 6, 30) if not off else D(2002, 6, 30), off, thermal=True, word="steady16")
         sc["thermal_crop"] = "WheatGDD"
         out.append(sc)
+    # calendar crops CONVERTED to thermal time (SwitchGDD=1): the thermal maturity is the mean over the window's seasons of the degree
+    # days accumulated up to the calendar maturity day - computed here by the independent degree-day model from the configured weather;
+    # words with nights above the upper temperature ("scorch"), nights below the base temperature ("coolnights"), and "mix"
+    for off in (False, True):
+        for word in (["scorch", "coolnights"] if q else ["scorch", "coolnights", "mix", "hot"]):
+            for nseas in (1, 2, 3):
+                end = D(2001 + nseas - 1, 8, 30) if not off else D(2001 + nseas - 1, 7, 25)
+                sc = mk("05/01", 40, D(2001, 4, 29), end, off, thermal=True, word=word)
+                sc["switch"] = True
+                out.append(sc)
     for s in out:
         yield s
 
@@ -157,7 +167,10 @@ def build_spec(scn):
 
 def _build_spec(scn):
     L = scn["L"]
-    if scn["thermal"] and scn.get("thermal_crop"):
+    if scn.get("switch"):
+        cdc = S.scaled_crop_kwargs("Maize", LENGTHS[L])["CDC_CD"] * 0.6
+        crop = {"name": "Maize", "planting": scn["planting"], "harvest": scn["harvest"], "scale": LENGTHS[L], "kw": {"CDC_CD": cdc, "SwitchGDD": 1}}
+    elif scn["thermal"] and scn.get("thermal_crop"):
         crop = {"name": scn["thermal_crop"], "planting": scn["planting"], "harvest": scn["harvest"], "scale": None, "gddscale": None, "kw": {}}
     elif scn["thermal"]:
         crop = {"name": "MaizeGDD", "planting": scn["planting"], "harvest": scn["harvest"], "scale": None, "gddscale": 0.15, "kw": {}}
@@ -336,6 +349,36 @@ def run(scn):
             return ref_gdd(meth, tu, tb, float(rec["MaxTemp"]), float(rec["MinTemp"]))
 
         maturity = float(crop.Maturity)
+        if scn.get("switch"):
+            # independent conversion: mean over the seasons inside the window (planting date .. day before the next planting date or the
+            # end date; seasons not longer than the calendar maturity are left out) of the degree days accumulated up to the calendar
+            # maturity day, with the crop table's temperatures and method
+            from aquacrop.entities.crops.crop_params import crop_params
+
+            cp = crop_params["Maize"]
+            tb, tu, meth = float(cp["Tbase"]), float(cp["Tupp"]), int(cp["GDDmethod"])
+            mcd = int(S.scaled_crop_kwargs("Maize", LENGTHS[scn["L"]])["MaturityCD"])
+            pm, pdd = (int(x) for x in scn["planting"].split("/"))
+            p0 = dt.datetime(start.year, pm, pdd)
+            if p0 < start:
+                p0 = dt.datetime(start.year + 1, pm, pdd)
+            sums = []
+            while p0 <= end:
+                nxt = dt.datetime(p0.year + 1, pm, pdd)
+                last = min(nxt - ONE, end)
+                cum, vals, d = 0.0, [], p0
+                while d <= last:
+                    cum += thermal(d)
+                    vals.append(cum)
+                    d += ONE
+                if len(vals) > mcd:
+                    sums.append(vals[mcd])
+                p0 = nxt
+            exp_m = float(np.mean(sums)) if sums else float("nan")
+            hit("converted_thermal_maturity_checked")
+            if not (abs(exp_m - maturity) <= 1e-9):
+                violate("converted-thermal-maturity", None, {"Maturity": maturity}, {"Maturity": exp_m, "seasons_averaged": len(sums), "calendar_maturity_day": mcd})
+            maturity = exp_m
         ref, plantings, harvests = calendar_reference(start, end, scn["planting"], hmd, n, scn["off"], maturity, thermal=thermal, death=inj.observed)
     else:
         L = scn["L"]
